@@ -21,6 +21,7 @@ type SpecEnv struct {
 	pos   token.Pos
 	fr    *frame
 	inOld bool
+	oldSt *State // state at loop entry (for old() in invariants)
 }
 
 func (e *SpecEnv) child() *SpecEnv {
@@ -41,6 +42,9 @@ func (vc *VC) localEnv(st *State, pos token.Pos) *SpecEnv {
 		for k, v := range vc.entry {
 			env.old[k] = v
 		}
+	}
+	for k, v := range fr.ghosts {
+		env.vars[k] = v
 	}
 	return env
 }
@@ -79,6 +83,14 @@ func (env *SpecEnv) lookup(name string) (Value, bool) {
 		return v, true
 	}
 	if env.inOld {
+		// inside a loop invariant old(x) is x at loop entry
+		if env.oldSt != nil {
+			if obj := env.vc.lookupLocal(name, env.pos); obj != nil {
+				if v, ok := env.oldSt.vars[obj]; ok {
+					return v, true
+				}
+			}
+		}
 		if v, ok := env.old[name]; ok {
 			return v, true
 		}
